@@ -11,13 +11,9 @@ from ..util import body_nodocstring, names_stored, unparse
 MOD = 'tracklib.algo.comparison'
 
 EXPLANATION = (
-    "Static analysis of _dtw/_fdtw/_fillAF_dtw/_p2weight: the forward cell update is interpreted on all 13 weak "
-    "orderings of the three predecessor costs (value uses the minimum, back-pointer designates a cell carrying it), "
-    "border cells, loop ranges, distance-matrix index/track pairing, backward walk start/stop/decoding, the "
-    "coupling fill, the p -> accumulation rule table and the three successor moves of the fast variant with "
-    "their bound guards and co-updated (queue key, predecessor, table) triple.")
+    'Static analysis by interpretation of the source (nothing imported or executed by CPython): for every pair of tracks of 1..3 fixes on two lattice points, 1..2 fixes on three points and five longer pairs in dimension 1, 2 and 3, and p in {1, 2, infinity}, the score must equal the minimum accumulated distance over the couplings, the returned pair lists must form a monotone coupling from the first to the last pair linking every observation with accumulated cost equal to the score and nb_links equal to its length, the fast variant must agree, and a matching whose first track is itself the result of a matching must not keep old links.')
 ASSUMPTIONS = ["the weight function is monotone in its first argument (true of the three rules _p2weight builds)"]
-TECHNIQUE = "finite ordering domain over predecessor costs (F4), index/affine pairing (F3), co-update path rule (F6)"
+TECHNIQUE = "abstract interpretation of match() in DTW, fast DTW and Frechet modes (with _p2weight, _dtw, _fdtw, _fillAF_dtw and the priority queue) by the checker's AST interpreter on ~360 pairs of small lattice tracks, against the minimum over all monotone couplings computed by the checker (bounded case domain)"
 
 W = lambda a, b: ('w', a, b)      # abstract weight application
 
